@@ -249,3 +249,10 @@ _extend("C09", [("c05", "r6_pair_adapters", (), _has("_find_best_match_pair"), "
 _extend("C03", [("c01", "r7_tuple", (), ALL, "retain and crop keep the interval [rstart, rstop) of the match: the coordinates stored in a match are those of the alignment (incl. the rightmost mirror)")])
 _extend("C05", [("c04", "r8_claimed_before_open", (), ALL, "a file generated from a {name} template that equals another output of one mate only gets that mate's reads twice: R1 and R2 files fall out of step")])
 _extend("C06", [("c04", "r5_loops", (), ALL, "a worker runs process_reads once per chunk: per-call totals must start from zero in every call, or the sums depend on how chunks are distributed")])
+
+# tenth round
+_extend("C04", [("c16", "paired", (), _has("PairedReverseComplementer"), "with --revcomp the matches of both mates are registered: 'reads with adapters' of R2 equals the number of R2 reads an adapter was removed from")])
+_extend("C09", [("c07", "r4_bounds", (), ALL, "later --times rounds search what is left of the read, which is short: a search window that reaches beyond it is clamped, not skipped")])
+_extend("C11", [("c05", "wrapper_routing", ("C11.X",), ALL, "R2's matches are recorded on R2's info: --discard-trimmed / --discard-untrimmed with --pair-filter=first judge R1 by R1's matches")])
+_extend("C13", [("c06", "r4_statistics_slots", (), ALL, "the quality-trimmed base count of every worker is merged for both reads")])
+_extend("C15", [("c09", "r2_rounds", (), _has("one round"), "with --times the read is routed by the adapter of its last round: every round searches what the previous one left, also under --action=none")])
